@@ -191,18 +191,18 @@ func suiteBlockProof(c *Ctx) {
 		}
 		var err error
 		panicked := false
-		func() {
+		call := func(cx context.Context, softMode bool) (e error, pan bool) {
 			defer func() {
 				if rec := recover(); rec != nil {
-					panicked = true
+					pan = true
 				}
 			}()
 			if block == nil {
-				err = node.Worker.ValidateBlockConsensus(ctx, nil, proofBytes, prev, prevProof, soft)
-			} else {
-				err = node.Worker.ValidateBlockConsensus(ctx, block, proofBytes, prev, prevProof, soft)
+				return node.Worker.ValidateBlockConsensus(cx, nil, proofBytes, prev, prevProof, softMode), false
 			}
-		}()
+			return node.Worker.ValidateBlockConsensus(cx, block, proofBytes, prev, prevProof, softMode), false
+		}
+		err, panicked = call(ctx, soft)
 		cancel()
 		out := verdictOf(err)
 		if panicked {
@@ -212,6 +212,7 @@ func suiteBlockProof(c *Ctx) {
 		// decode for the model (unreadable or empty bytes -> "-")
 		proofTok := "-"
 		genuine := false
+		genuineOf := func(softMode bool) bool { return false }
 		if len(proofBytes) > 0 {
 			func() {
 				defer func() {
@@ -249,19 +250,23 @@ func suiteBlockProof(c *Ctx) {
 				seedOk := km.VerifyRandomSeed(primitives.BlockHeight(h), randomseed.RandomSeedToBytes(seed), master) == nil
 				proofTok = fmt.Sprintf("BP(%s;[%s];%s;%s)", node.enc.ref(rf), strings.Join(ss, ","), b01(len(bp.RandomSeedSignature()) == 0), b01(seedOk))
 				// independent reference of the property's acceptance condition
-				wOk := weight >= Q
-				if soft {
-					wOk = weight > f
-				}
-				if W == 0 {
-					wOk = !soft && false || soft && weight > 0
-					if !soft {
-						wOk = weight >= 1
-					}
-				}
-				genuine = !ctxc && block != nil && rf.MessageType() == protocol.LEAN_HELIX_COMMIT && uint64(rf.InstanceId()) == inst &&
-					uint64(rf.BlockHeight()) == h && bytes.Equal(rf.BlockHash(), blockHash(blk)) && allOk && distinct && allMembers && wOk &&
+				rest := block != nil && rf.MessageType() == protocol.LEAN_HELIX_COMMIT && uint64(rf.InstanceId()) == inst &&
+					uint64(rf.BlockHeight()) == h && bytes.Equal(rf.BlockHash(), blockHash(blk)) && allOk && distinct && allMembers &&
 					len(bp.RandomSeedSignature()) > 0 && seedOk
+				genuineOf = func(softMode bool) bool {
+					wOk := weight >= Q
+					if softMode {
+						wOk = weight > f
+					}
+					if W == 0 {
+						wOk = softMode && weight > 0
+						if !softMode {
+							wOk = weight >= 1
+						}
+					}
+					return rest && wOk
+				}
+				genuine = !ctxc && genuineOf(soft)
 			}()
 		}
 		if err == nil && !panicked && !genuine {
@@ -287,5 +292,20 @@ func suiteBlockProof(c *Ctx) {
 		}
 		c.Class(mname + "/" + out)
 		c.Nontrivial(fmt.Sprintf("%s/%s/%v/%d", mname, out, soft, len(signers)))
+		// the same inputs once more, on the same node, in the other mode: a verdict is a function of the
+		// inputs and the mode, never of what was validated before (soft acceptance must not leak into strict)
+		if !ctxc && proofTok != "-" && !panicked {
+			err2, pan2 := call(context.Background(), !soft)
+			out2 := verdictOf(err2)
+			if pan2 {
+				out2 = "panic"
+				c.Violation("C02", "validate-panic", "ValidateBlockConsensus panicked (second call)", fmt.Sprintf("proof=%x", proofBytes))
+			}
+			if err2 == nil && !pan2 && !genuineOf(!soft) {
+				c.Violation("C02", "accepted-not-genuine", fmt.Sprintf("ValidateBlockConsensus accepted a proof that is not a genuine commit certificate when asked again with soft=%v after soft=%v (mutation %s)", !soft, soft, mname), fmt.Sprintf("proof=%x", proofBytes))
+			}
+			c.Emit(fmt.Sprintf("validate %s %s %s %d %s %s", b2s(false), blockTok, proofTok, inst, fmtMembers(members), b2s(!soft)), out2)
+			c.Class("again/" + mname + "/" + out2)
+		}
 	}
 }
